@@ -87,19 +87,36 @@ func c16Backoff(p *Prog, r *Report) {
 			okCmp := false
 			eachInstr(nd, func(in2 ssa.Instruction) {
 				bo, ok := in2.(*ssa.BinOp)
-				if !ok || (bo.Op != token.GTR && bo.Op != token.GEQ) || bo.X != v {
+				if !ok {
 					return
 				}
-				if f, _ := loadedField(bo.Y); f != maxF {
+				// which truth value of the comparison means v <= maxDelay (or v < maxDelay)?
+				var need bool
+				fx, _ := loadedField(bo.X)
+				fy, _ := loadedField(bo.Y)
+				switch {
+				case bo.X == v && fy == maxF && (bo.Op == token.GTR || bo.Op == token.GEQ):
+					need = false
+				case bo.X == v && fy == maxF && (bo.Op == token.LEQ || bo.Op == token.LSS):
+					need = true
+				case bo.Y == v && fx == maxF && (bo.Op == token.LSS || bo.Op == token.LEQ):
+					need = false
+				case bo.Y == v && fx == maxF && (bo.Op == token.GEQ || bo.Op == token.GTR):
+					need = true
+				default:
 					return
 				}
-				// false edge reaches the return/phi directly
+				// that edge reaches the return/phi directly, or dominates the return
 				blk := bo.Block()
 				if ifi, ok := lastIf(blk); ok && ifi.Cond == ssa.Value(bo) {
-					if via != nil && via.Block().Preds[edge] == blk && blk.Succs[1] == via.Block() {
+					succ := 1
+					if need {
+						succ = 0
+					}
+					if via != nil && via.Block().Preds[edge] == blk && blk.Succs[succ] == via.Block() {
 						okCmp = true
 					}
-					if via == nil && guardedBy(ret.Block(), bo, false) {
+					if via == nil && guardedBy(ret.Block(), bo, need) {
 						okCmp = true
 					}
 				}
